@@ -354,14 +354,9 @@ func main() {
 	focusInfo["focus_runs_compared_across_two_fresh_processes"] = focusRuns
 	focusInfo["cold_start_runs_one_per_fresh_process"] = coldRuns
 	focusInfo["note"] = "only exercised when the tree declares package-level variables the pinned tree does not have; then focus programs (same calls under different DefaultRoundingMode values in consecutive epochs, few operands) run in two fresh processes with the epochs in opposite order and every epoch's results must agree"
-	if harnessTrouble > 0 {
-		for _, t := range trouble {
-			fmt.Fprintln(os.Stderr, "ctl:", t)
-		}
-		fail("%d worker failures (harness or build trouble)", harnessTrouble)
-	}
-
-	// triage
+	// triage (worker failures are dealt with below: a violation that a
+	// healthy worker found and that replays is a verdict whatever happened
+	// to the others; without one, trouble means no verdict)
 	knownHit := map[string]int{}
 	var unknown []found
 	for _, f := range viols {
@@ -399,6 +394,15 @@ func main() {
 		fmt.Printf("  class=%s op=%s seed=%d run=%d\n  %s\n", f.v.Class, f.v.Op, seed, f.run, f.v.Detail)
 	}
 
+	if harnessTrouble > 0 {
+		for _, t := range trouble {
+			fmt.Fprintln(os.Stderr, "ctl:", t)
+		}
+		if nViol == 0 {
+			fail("%d worker failures (harness or build trouble)", harnessTrouble)
+		}
+		fmt.Fprintf(os.Stderr, "ctl: %d worker failures besides the violations reported above (their runs are not counted)\n", harnessTrouble)
+	}
 	writeEvidence(cfg, sums, time.Since(start).Seconds(), nViol, raceRuns, raceReports, altRuns, *altVersion, knownHit, *treeHash)
 	if nViol > 0 {
 		os.Exit(1)
